@@ -31,6 +31,8 @@ type OpC10 struct {
 	// 1 ADI "BLACKOUT:<id>" + ADS licenserotation, 2 ADI is the bare keyword, 3 keyword inside other text, 4 two entries of other types, 5 one entry only
 	VSS   int `json:"vss,omitempty"`
 	VSSId int `json:"vss_id,omitempty"`
+	// Wrapped: the descriptor is handed to the tracker inside a decorator type (another implementation of the interface)
+	Wrapped bool `json:"wrapped,omitempty"`
 }
 
 type CaseC10 struct {
@@ -71,6 +73,7 @@ func genC10Op(t *rapid.T) OpC10 {
 			o.VSS = rapid.IntRange(1, 5).Draw(t, "vss-shape")
 			o.VSSId = rapid.IntRange(0, 2).Draw(t, "vss-id")
 		}
+		o.Wrapped = rapid.IntRange(0, 7).Draw(t, "wrapped") == 0
 	}
 	if o.Kind == "close" {
 		o.Idx = rapid.IntRange(-1, 12).Draw(t, "idx")
@@ -256,6 +259,10 @@ func checkC10(c CaseC10, x *hx.Ctx) (fail *hx.Failure) {
 					if hasPTS && !o.Decoded {
 						sharedSig, sharedPTS, sharedList = nd.obj.SCTE35(), pts, []scte35.SegmentationDescriptor{nd.obj}
 					}
+					if o.Wrapped {
+						// the tracker is specified on the interface: an application's decorator must be tracked like the library's own type
+						nd.obj = &c19Wrapped{SegmentationDescriptor: nd.obj, note: "decorated"}
+					}
 				}
 				d = nd
 				byObj[d.obj] = d
@@ -369,6 +376,9 @@ func checkC10(c CaseC10, x *hx.Ctx) (fail *hx.Failure) {
 					return f
 				}
 				d = nd
+				if o.Wrapped {
+					d.obj = &c19Wrapped{SegmentationDescriptor: d.obj, note: "decorated"}
+				}
 				byObj[d.obj] = d
 				seen = append(seen, d)
 			} else if o.Idx >= 1000 {
@@ -431,7 +441,7 @@ func checkC10(c CaseC10, x *hx.Ctx) (fail *hx.Failure) {
 var propC10 = hx.Register(hx.Prop[CaseC10]{ID: "C10", Gen: genC10, Check: checkC10})
 
 func c10Rule() {
-	hx.Rec("C10").SetRule("cases: histories of 1..40 calls on one tracker: process(new descriptor: type from a 26-type alphabet covering every rule kind plus two types without rules, weighted towards breakaway/resumption/network/unscheduled; event id 1..3; segment number/expected 0..2; sub-segment fields on 0x34/0x36; half of the 0x40 descriptors (and 1 in 16 of the others) carry a stream-switch-shaped multiple-UPID list in one of five shapes with signal id 0..2; attached to a signal whose PTS repeats the previous one (<= 5 per PTS; API-built ones then share ONE signal object, as the descriptors of one decoded section do) or advances; built through the API or by decoding a reference encoding), process(the same object again immediately), process(descriptor whose signal has no PTS), close(a previously seen descriptor, biased to recent ones, or a fresh one), open(). Oracle: invariants over the observable history by object identity, checked after EVERY call: Open() contains only successfully processed, not yet closed, not discarded, distinct descriptors in opening order; every closed descriptor was open, never closed before, closable under the transcribed rule table and the library's own CanClose (or equal, for explicit close), closed lists last-opened first; immediate re-processing => duplicate error and unchanged Open(); PTS-less => error, nothing closed, unchanged Open(); a recovered panic is a violation. Enumerated: all histories of length <= 4 over 9 descriptor kinds + 2 explicit closes. Non-trivial: the history contains a breakaway and, while it is pending, a descriptor that closes it, an explicit close, a second breakaway, a resumption, or an immediate re-processing.",
+	hx.Rec("C10").SetRule("cases: histories of 1..40 calls on one tracker: process(new descriptor: type from a 26-type alphabet covering every rule kind plus two types without rules, weighted towards breakaway/resumption/network/unscheduled; event id 1..3; segment number/expected 0..2; sub-segment fields on 0x34/0x36; half of the 0x40 descriptors (and 1 in 16 of the others) carry a stream-switch-shaped multiple-UPID list in one of five shapes with signal id 0..2; one descriptor in eight reaches the tracker inside a decorator type; attached to a signal whose PTS repeats the previous one (<= 5 per PTS; API-built ones then share ONE signal object, as the descriptors of one decoded section do) or advances; built through the API or by decoding a reference encoding), process(the same object again immediately), process(descriptor whose signal has no PTS), close(a previously seen descriptor, biased to recent ones, or a fresh one), open(). Oracle: invariants over the observable history by object identity, checked after EVERY call: Open() contains only successfully processed, not yet closed, not discarded, distinct descriptors in opening order; every closed descriptor was open, never closed before, closable under the transcribed rule table and the library's own CanClose (or equal, for explicit close), closed lists last-opened first; immediate re-processing => duplicate error and unchanged Open(); PTS-less => error, nothing closed, unchanged Open(); a recovered panic is a violation. Enumerated: all histories of length <= 4 over 9 descriptor kinds + 2 explicit closes. Non-trivial: the history contains a breakaway and, while it is pending, a descriptor that closes it, an explicit close, a second breakaway, a resumption, or an immediate re-processing.",
 		"the same object is re-submitted only immediately (the duplicate ring legitimately forgets after 10 signal times)",
 		"at most 5 descriptors per PTS value (the received list doubles per same-PTS descriptor: a cost issue outside this property)",
 		"a breakaway counts as open although Open() hides it while the blackout lasts; descriptors that vanish from Open() at a resumption count as discarded")
